@@ -67,6 +67,7 @@ class Gen:
         self.fw_keys = []
         self.hostile = 0
         self.id_predict = None
+        self.hostile_values = False
 
     # ----------------------------------------------------------------- payloads
     def payload(self, rule, valid=None):
@@ -107,6 +108,8 @@ class Gen:
         child = self.model.nodes[nid]["children"][cid]
         if child["values"] and rng.random() < 0.6:
             return rng.choice(list(child["values"]))
+        if rng.random() < 0.12:
+            return 22  # the one sub-type whose payload rule differs between 1.4 and later versions
         smax = tables.SETREQ_MAX[self.version]
         special = [2, 3, 21, 22, 23, 15, 16, 36] + ([40, 41, 44, 45] if smax >= 46 else []) + ([47, 49, 56] if smax >= 56 else [])
         if rng.random() < 0.5:
@@ -342,8 +345,17 @@ class Gen:
             sub = self.sub_for_child(nid, cid)
         else:
             sub = rng.randint(0, tables.SETREQ_MAX[self.version])
-        rule = tables.payload_rule(self.version, 1, sub)
-        value = self.payload(rule)
+        rule_version = self.version
+        node_floor = tables.version_floor(self.model.nodes[nid]["version"]) if nid in self.model.nodes else self.version
+        if node_floor != self.version and sub <= tables.SETREQ_MAX[node_floor] and rng.random() < 0.5:
+            rule_version = node_floor  # what the node itself would consider valid
+        elif rng.random() < 0.25:
+            # a value that is right for another protocol version (e.g. the node's own)
+            rule_version = rng.choice([v for v in tables.VERSIONS if sub <= tables.SETREQ_MAX[v]])
+        rule = tables.payload_rule(rule_version, 1, sub)
+        value = self.payload(rule).rstrip()  # the wire format cannot carry trailing blanks
+        if self.hostile_values and rng.random() < 0.2:
+            value = rng.choice(["a;b", ";", "1;2;3;4;5;6", "x\ny", "5;", "tëst;𝛑"])
         if rng.random() < 0.15 and rule in ("pct", "bin", "int"):
             try:
                 value = int(value)
@@ -429,9 +441,29 @@ class Gen:
         self.emit_line(f"{self.rng.choice([77, 78, 79])};255;3;0;6;0")
 
 
-def make_ops(rng, version, n_ops, weights=None, probes_after_hostile=False, **kwargs):
+def make_ops(rng, version, n_ops, weights=None, probes_after_hostile=False, hostile_values=False, scenario=0.0, **kwargs):
+    kwargs_scen = scenario
     gen = Gen(rng, version, weights, **kwargs)
-    # a short warm-up that makes later traffic meaningful
+    gen.hostile_values = hostile_values
+    if rng.random() < kwargs_scen:
+        # scenario prefix: a smart-sleep node whose presented version is older than (or was
+        # never presented to) the gateway, with reports for the version-sensitive sub-types
+        nid = rng.choice(gen.my_nodes)
+        ver = rng.choice(["1.4", "1.4", "1.5", None, "2.0", "2.2.0"])
+        if ver is not None:
+            gen.emit_line(f"{nid};255;0;0;17;{ver}")
+        else:
+            gen.emit_line("255;255;3;0;3;")
+            nid = gen.model.handed_out[-1] if gen.model.handed_out else nid
+            if nid not in gen.model.nodes:
+                gen.emit_line(f"{nid};255;0;0;17;1.4")
+        cid = rng.choice(CHILD_POOL)
+        gen.emit_line(f"{nid};{cid};0;0;14;heater")
+        wake = f"{nid};255;3;0;32;500" if version == "2.2" else f"{nid};255;3;0;22;7"
+        if gen.v2:
+            gen.emit_line(wake)
+        for sub, val in rng.sample([(22, "Min"), (21, "Off"), (2, "1"), (0, "20.5"), (3, "40")], 3):
+            gen.emit_line(f"{nid};{cid};1;0;{sub};{val}")
     for _ in range(rng.randint(0, 3)):
         gen.g_present_node()
         if rng.random() < 0.8:
